@@ -661,3 +661,73 @@ def run_c(facts, report, config):
                                                 "field `%s` of the runtime parameters is initialised from %s, expected the "
                                                 "constant %s" % (fname, sorted(consts) or [repr(r) for r in roots], want), s[3],
                                                 {"body": b["id"]}), config)
+
+
+# ---------------------------------------------------------------------------------------------
+# (f) residue-valued parameter fields (R mod m, R^2 mod m, R^3 mod m) come from reducing producers.
+
+PARAM_ADTS = ("modular::monty_form::MontyParams", "modular::boxed_monty_form::BoxedMontyParams")
+RESIDUE_FIELDS = ("one", "r2", "r3")
+REDUCING = {"rem", "rem_vartime", "rem_wide", "rem_wide_vartime", "montgomery_reduction", "add_mod", "sub_mod", "mul_mod",
+            "neg_mod", "double_mod", "square", "mul", "retrieve", "div_rem", "div_rem_vartime", "rem_limb"}
+PASS_THROUGH = {"split", "shorten", "resize", "into", "from", "clone", "conditional_select", "ct_select", "select", "1", "0"}
+
+
+def run_params(facts, report, config):
+    """`one`, `r2`, `r3` are stored residues: the last value-changing operation on the way to the field must be a
+    reduction (a remainder, a Montgomery reduction / multiplication, a modular add). `(2^BITS - 1) mod m + 1` computed
+    with a plain wrapping add equals m — not R mod m — when m divides 2^BITS, i.e. for m = 1."""
+    for b in facts.body_list:
+        view = None
+        prov = None
+        for bi, bb in enumerate(b["blocks"]):
+            if bb["cleanup"]:
+                continue
+            for s in bb["stmts"]:
+                if not (s[0] == "a" and s[2][0] == "agg" and s[2][1] == "adt" and s[2][2] in PARAM_ADTS):
+                    continue
+                view = view or mir.BodyView(b)
+                prov = prov or mir.Provenance(view)
+                names = [x["name"] for x in facts.adts[s[2][2]]["variants"][0]["fields"]]
+                for nm, op in zip(names, s[2][4]):
+                    if nm not in RESIDUE_FIELDS:
+                        continue
+                    report.count("residue_parameter_fields")
+                    key = "c08.param|%s|%s" % (norm_id(b["id"]), nm)
+                    bad = _non_reducing(view, prov, op, 0)
+                    if bad:
+                        report.add(Instance(key, "c08.param", "violation",
+                                            "parameter field `%s` (a residue modulo the modulus) is produced by `%s`, which does "
+                                            "not reduce: the stored value can equal the modulus itself (for `(2^BITS - 1) mod m + 1` "
+                                            "exactly when m divides 2^BITS, i.e. m = 1), so it is not the canonical residue" % (
+                                                nm, bad), s[3], {"body": b["id"]}), config)
+                    else:
+                        report.add(Instance(key, "c08.param", "ok", "auto: `%s` comes from a reducing producer, another "
+                                            "parameter set or a constant of the same role" % nm, s[3], {"body": b["id"]}), config)
+
+
+def _non_reducing(view, prov, op, depth):
+    """name of a non-reducing last operation, or None"""
+    if depth > 5:
+        return None
+    for r in mir.uniq_roots(prov.roots_of_operand(op)):
+        if r.kind == "param":
+            continue                         # copied from another parameter set / argument (judged where it was built)
+        if r.kind == "const":
+            continue                         # P::ONE / P::R2 / P::R3 of a compile-time modulus
+        if r.kind == "multi":
+            continue
+        if r.kind != "call" or r.site is None:
+            return r.kind
+        t = view.blocks[r.site[0]]["term"]
+        seg = mir.last_seg(mir.callee_name(t)) or mir.last_seg(mir.callee_decl(t)) or "?"
+        if seg in REDUCING:
+            continue
+        if seg in PASS_THROUGH and t["args"]:
+            for a in t["args"][:2] if seg in ("conditional_select", "ct_select", "select") else t["args"][:1]:
+                bad = _non_reducing(view, prov, a, depth + 1)
+                if bad:
+                    return bad
+            continue
+        return seg
+    return None
